@@ -74,7 +74,26 @@ Fixpoint resolve (s : bytes) (m : rmode) (seen : list bytes) (pend : bytes) {str
           else resolve r (MFn n (b :: acc)) seen pend
       end
   end.
-Definition resolve_doc (s : bytes) : bytes := resolve s MOut [] [].
+(* the same pass with an accumulator (what runs: documents of hundreds of kilobytes must not recurse on the stack);
+   proofs/ScriptOnceProof.v: resolve_tr s m seen pend acc = rev acc ++ resolve s m seen pend *)
+Fixpoint resolve_tr (s : bytes) (m : rmode) (seen : list bytes) (pend : bytes) (acc : bytes) {struct s} : bytes :=
+  match s with
+  | [] => rev_append acc []
+  | b :: r =>
+      match m with
+      | MOut => if Byte.eqb b x04 then resolve_tr r MGroup seen [] acc else resolve_tr r MOut seen pend (b :: acc)
+      | MGroup =>
+          if Byte.eqb b x01 then resolve_tr r (MName []) seen pend acc
+          else if Byte.eqb b x05 then resolve_tr r MOut seen [] (rev_append (script_elem pend) acc)
+          else resolve_tr r MGroup seen pend acc
+      | MName n => if Byte.eqb b x02 then resolve_tr r (MFn (rev n) []) seen pend acc else resolve_tr r (MName (b :: n)) seen pend acc
+      | MFn n f =>
+          if Byte.eqb b x03 then
+            (if seen_name n seen then resolve_tr r MGroup seen pend acc else resolve_tr r MGroup (n :: seen) (pend ++ rev f) acc)
+          else resolve_tr r (MFn n (b :: f)) seen pend acc
+      end
+  end.
+Definition resolve_doc (s : bytes) : bytes := resolve_tr s MOut [] [] [].
 
 (* side conditions of the encoding *)
 Definition no_byte (c : byte) (s : bytes) : bool := forallb (fun b => negb (Byte.eqb b c)) s.
